@@ -88,6 +88,9 @@ func (ex *Exec) verifyTop() {
 	envPre := &SpecEnv{vars: fr.params, st: entry, lst: entry, pkg: fn.Pkg.Pkg, topOld: entry.top}
 	envPre.old = envPre
 	for _, g := range ex.prog.Contracts.Globals {
+		if g.Axiom {
+			continue // emitted on demand, see emitAxioms
+		}
 		genv := *envPre
 		if pk := ex.prog.pkgByPath[g.PkgPath]; pk != nil {
 			genv.pkg = pk.Types
@@ -103,13 +106,10 @@ func (ex *Exec) verifyTop() {
 			}()
 			t := ex.evalBool(g.E, &genv)
 			vc.assume(t)
-			if g.Axiom {
-				vc.Assumptions["definitional axiom of a specification function: "+g.Text] = true
-			} else {
-				vc.Assumptions["trusted global fact: "+g.Text] = true
-			}
+			vc.Assumptions["trusted global fact: "+g.Text] = true
 		}()
 	}
+	defer ex.emitAxioms(envPre)
 	for _, rq := range c.Requires {
 		vc.assume(ex.evalBool(rq.E, envPre))
 	}
@@ -282,4 +282,120 @@ func (rep *FuncReport) header(ex *VC) []string {
 	out = append(out, ex.decls...)
 	out = append(out, ex.lateDecls...)
 	return out
+}
+
+// specFuncsOf collects the uninterpreted specification functions an expression mentions (through macros).
+func (ex *Exec) specFuncsOf(e Expr, out map[string]bool, seen map[string]bool) {
+	var walk func(e Expr)
+	walk = func(e Expr) {
+		switch x := e.(type) {
+		case EUnary:
+			walk(x.X)
+		case EBinary:
+			walk(x.X)
+			walk(x.Y)
+		case ECond:
+			walk(x.C)
+			walk(x.A)
+			walk(x.B)
+		case EField:
+			walk(x.X)
+		case EIndex:
+			walk(x.X)
+			walk(x.I)
+		case ESlice:
+			walk(x.X)
+			if x.Lo != nil {
+				walk(x.Lo)
+			}
+			if x.Hi != nil {
+				walk(x.Hi)
+			}
+		case EAssert:
+			walk(x.X)
+		case EOld:
+			walk(x.X)
+		case EQuant:
+			walk(x.Body)
+			for _, g := range x.Triggers {
+				for _, t := range g {
+					walk(t)
+				}
+			}
+		case ECall:
+			for _, a := range x.Args {
+				walk(a)
+			}
+			if id, ok := x.Fun.(EIdent); ok {
+				if sf := ex.prog.Contracts.Specs[id.Name]; sf != nil {
+					if sf.Body == nil {
+						out[sf.Name] = true
+					} else if !seen[sf.Name] {
+						seen[sf.Name] = true
+						walk(sf.Body)
+					}
+				}
+			}
+		}
+	}
+	walk(e)
+}
+
+// emitAxioms adds the definitional axioms of exactly those specification functions the VC uses
+// (transitively), so that unrelated recursive definitions do not burden every query.
+func (ex *Exec) emitAxioms(env *SpecEnv) {
+	vc := ex.vc
+	type ax struct {
+		g     *GlobalFact
+		funcs map[string]bool
+		done  bool
+	}
+	var axs []*ax
+	for _, g := range ex.prog.Contracts.Globals {
+		if !g.Axiom {
+			continue
+		}
+		a := &ax{g: g, funcs: map[string]bool{}}
+		ex.specFuncsOf(g.E, a.funcs, map[string]bool{})
+		axs = append(axs, a)
+	}
+	used := func(name string) bool { return vc.declared[quoteSym("spec|"+name)] }
+	savedLines := vc.lines
+	for changed := true; changed; {
+		changed = false
+		for _, a := range axs {
+			if a.done {
+				continue
+			}
+			need := false
+			for f := range a.funcs {
+				if used(f) {
+					need = true
+				}
+			}
+			if !need {
+				continue
+			}
+			a.done, changed = true, true
+			genv := *env
+			if pk := ex.prog.pkgByPath[a.g.PkgPath]; pk != nil {
+				genv.pkg = pk.Types
+			}
+			func() {
+				defer func() {
+					if r := recover(); r != nil {
+						if _, ok := r.(specErr); ok {
+							return
+						}
+						panic(r)
+					}
+				}()
+				vc.lines = nil
+				t := ex.evalBool(a.g.E, &genv)
+				vc.lateDecls = append(vc.lateDecls, "(assert "+t.S+")")
+				vc.Assumptions["definitional axiom of a specification function: "+a.g.Text] = true
+			}()
+		}
+	}
+	vc.lines = savedLines
 }
